@@ -44,8 +44,17 @@ Gcd(a, b) == IF b = 0 THEN a ELSE Gcd(b, a % b)
 \* rk ("risk"): somewhere below, an operator that can fail produced a value the
 \* model knows only roughly -- the real evaluation may legitimately end in an
 \* arithmetic error instead of this value.
+\* nr ("nearest"): the value is exactly n/d, its double is NOT exact (fx = FALSE) but
+\* it is the correctly rounded double of n/d: a decimal numeral as written, the
+\* negation / absolute value / scaling by a power of two of such a value, the
+\* quotient of two exact doubles (IEEE division is correctly rounded), the result
+\* of `round` to k >= 1 digits (converted back from the decimal).  Python's repr()
+\* of such a double is the short decimal n/d itself (<= 15 significant digits), so
+\* what is "written" is known to the model and a decimal tie of `round` is decided.
+\* Sums, products and everything reached through an inexact step are not nr.
 Out(kind, what, ex, n, d, sg, mag, fx) ==
-  [kind |-> kind, what |-> what, ex |-> ex, n |-> n, d |-> d, sg |-> sg, mag |-> mag, fx |-> fx, rk |-> FALSE]
+  [kind |-> kind, what |-> what, ex |-> ex, n |-> n, d |-> d, sg |-> sg, mag |-> mag, fx |-> fx, rk |-> FALSE,
+   nr |-> FALSE]
 Err(w) == Out("err", w, FALSE, 0, 1, "u", "mid", FALSE)
 Exc(w) == Out("exc", w, FALSE, 0, 1, "u", "mid", FALSE)
 Ix(sg, mag) == Out("val", "", FALSE, 0, 1, sg, mag, FALSE)
@@ -65,6 +74,12 @@ Zero == Q(0, 1)
 One == Q(1, 1)
 Bool(b) == IF b THEN One ELSE Zero
 
+SetNr(r, b) == IF r.kind = "val" /\ r.ex /\ ~r.fx /\ b THEN [r EXCEPT !.nr = TRUE] ELSE r
+\* the double the code holds is the double nearest to n/d
+Near(a) == a.ex /\ (a.fx \/ a.nr)
+\* +-2^j: multiplying / dividing by it is exact in binary floating point
+Pow2Val(a) == a.ex /\ a.fx /\ IsPow2(AbsI(a.n)) /\ IsPow2(a.d)
+
 Flip(sg) == CASE sg = "p" -> "n" [] sg = "n" -> "p" [] OTHER -> sg
 SgMul(a, b) == IF a = "z" \/ b = "z" THEN "z" ELSE IF a = "u" \/ b = "u" THEN "u"
                ELSE IF a = b THEN "p" ELSE "n"
@@ -77,8 +92,8 @@ Tiny(a) == ~a.ex /\ a.mag = "tiny"
 Raise(w) == IF "NoExceptionBarrier" \in Dev THEN Exc(w) ELSE Err(w)
 
 (* ---- unary ------------------------------------------------------- *)
-Neg(a) == IF a.ex THEN Qf(-a.n, a.d, a.fx) ELSE Ix(Flip(a.sg), a.mag)
-AbsV(a) == IF a.ex THEN Qf(AbsI(a.n), a.d, a.fx) ELSE Ix(IF a.sg = "n" THEN "p" ELSE a.sg, a.mag)
+Neg(a) == IF a.ex THEN SetNr(Qf(-a.n, a.d, a.fx), a.nr) ELSE Ix(Flip(a.sg), a.mag)
+AbsV(a) == IF a.ex THEN SetNr(Qf(AbsI(a.n), a.d, a.fx), a.nr) ELSE Ix(IF a.sg = "n" THEN "p" ELSE a.sg, a.mag)
 Truth(a) == IF a.ex THEN (IF a.n # 0 THEN "t" ELSE IF a.fx THEN "f" ELSE "u")
             \* an inexact value is only known roughly (values beyond the exact bound are labelled
             \* "mid" whatever their true magnitude): it may underflow to 0.0 in the floating-point
@@ -171,7 +186,8 @@ ApplyU(op, a) == LET r == ApplyU0(op, a) IN Risk(r, a.rk \/ (op \in CanFail \ {"
 (* ---- binary ------------------------------------------------------ *)
 MulV(a, b) ==
   IF (IsZero(a) /\ a.fx /\ ~Huge(b)) \/ (IsZero(b) /\ b.fx /\ ~Huge(a)) THEN Zero   \* 0 * x = 0 exactly
-  ELSE IF a.ex /\ b.ex THEN Qf(a.n * b.n, a.d * b.d, a.fx /\ b.fx)
+  ELSE IF a.ex /\ b.ex THEN SetNr(Qf(a.n * b.n, a.d * b.d, a.fx /\ b.fx),
+                                   (Near(a) /\ Pow2Val(b)) \/ (Near(b) /\ Pow2Val(a)))
   ELSE IF IsZero(a) \/ IsZero(b) THEN Zero
   ELSE IF Huge(a) \/ Huge(b) THEN (IF Tiny(a) \/ Tiny(b) THEN Unknown ELSE Raise("overflow"))
   ELSE IF Tiny(a) /\ Tiny(b) THEN Zero
@@ -180,8 +196,10 @@ MulV(a, b) ==
 DivV(a, b) ==
   IF IsZero(b) THEN Err("div0")             \* in-band also as-is ("Divide by zero")
   ELSE IF a.ex /\ b.ex THEN
-       (IF b.n > 0 THEN Qf(a.n * b.d, a.d * b.n, a.fx /\ b.fx)
-                   ELSE Qf(-(a.n * b.d), a.d * (-b.n), a.fx /\ b.fx))
+       \* the quotient of two exact doubles is correctly rounded; dividing by +-2^j is exact
+       SetNr(IF b.n > 0 THEN Qf(a.n * b.d, a.d * b.n, a.fx /\ b.fx)
+                        ELSE Qf(-(a.n * b.d), a.d * (-b.n), a.fx /\ b.fx),
+             (a.fx /\ b.fx) \/ (Near(a) /\ Pow2Val(b)))
   ELSE IF IsZero(a) THEN Zero
   ELSE IF b.sg \notin {"p", "n"} THEN Unknown
   ELSE IF Huge(a) THEN (IF Huge(b) THEN Unknown ELSE Raise("overflow"))
@@ -294,8 +312,11 @@ RoundV(a, b) ==
   ELSE IF ~a.ex THEN a
   ELSE LET k == tb.n IN
        IF k >= 0 /\ k <= 4 THEN
-          (IF IsTie(a.n * Pow10(k), a.d) /\ ~a.fx THEN Unknown
-           ELSE Qf(RI(a.n * Pow10(k), a.d), Pow10(k), a.fx))
+          \* a tie is decided when the code holds the written number: an exact double, or (the
+          \* repaired code rounds the decimal repr, not the binary expansion) the nearest double
+          \* of a short decimal.  The result for k >= 1 is converted back from a decimal: nearest.
+          (IF IsTie(a.n * Pow10(k), a.d) /\ ~a.fx /\ (~a.nr \/ "RoundPythonBuiltin" \in Dev) THEN Unknown
+           ELSE SetNr(Qf(RI(a.n * Pow10(k), a.d), Pow10(k), a.fx), k >= 1 /\ "RoundPythonBuiltin" \notin Dev))
        ELSE IF k < 0 /\ k >= -4 THEN
           (IF IsTie(a.n, a.d * Pow10(-k)) /\ ~a.fx THEN Unknown
            ELSE Qf(RI(a.n, a.d * Pow10(-k)) * Pow10(-k), 1, TRUE))
@@ -314,7 +335,8 @@ Cmp3(a, b) ==
   ELSE IF a.ex /\ b.ex THEN
        (IF a.n * b.d < b.n * a.d THEN "lt"
         ELSE IF a.n * b.d > b.n * a.d THEN "gt"
-        ELSE IF a.fx /\ b.fx THEN "eq" ELSE "u")
+        \* equal rationals: equal doubles when both are exact or both the nearest double
+        ELSE IF (a.fx /\ b.fx) \/ (Near(a) /\ Near(b)) THEN "eq" ELSE "u")
   ELSE "u"
 CmpV(op, a, b) ==
   LET c == Cmp3(a, b) IN
@@ -359,11 +381,29 @@ LitTable ==
   ("0.5" :> <<1, 2>>) @@ ("1.5" :> <<3, 2>>) @@ ("2.5" :> <<5, 2>>) @@ ("3.5" :> <<7, 2>>) @@
   (".5" :> <<1, 2>>) @@ ("2." :> <<2, 1>>) @@ ("0.25" :> <<1, 4>>) @@ ("0.75" :> <<3, 4>>) @@
   ("1.25" :> <<5, 4>>) @@ ("400" :> <<400, 1>>) @@ ("5000" :> <<5000, 1>>)
-IsLit(t) == t \in DOMAIN LitTable
+\* decimal numerals for the `round` universe (MC_Expr family "ties"): ties at 1, 2, 3
+\* digits that have no exact binary representation (their double lies below or above
+\* the tie), ties that are exact in binary, near-ties, integers for negative digit
+\* counts, and the numerals their roundings are compared with.  (Not part of the
+\* tokeniser vocabulary CharsOf: lexically they are digits "." digits like "0.25".)
+TieLitTable ==
+  ("0.15" :> <<3, 20>>) @@ ("0.35" :> <<7, 20>>) @@ ("0.45" :> <<9, 20>>) @@ ("1.45" :> <<29, 20>>) @@
+  ("2.55" :> <<51, 20>>) @@ ("0.005" :> <<1, 200>>) @@ ("0.075" :> <<3, 40>>) @@ ("0.285" :> <<57, 200>>) @@
+  ("0.995" :> <<199, 200>>) @@ ("1.005" :> <<201, 200>>) @@ ("2.675" :> <<107, 40>>) @@ ("1.445" :> <<289, 200>>) @@
+  ("0.0015" :> <<3, 2000>>) @@ ("0.1235" :> <<247, 2000>>) @@ ("1.0005" :> <<2001, 2000>>) @@
+  ("0.125" :> <<1, 8>>) @@ ("0.375" :> <<3, 8>>) @@ ("0.0625" :> <<1, 16>>) @@
+  ("2.674" :> <<1337, 500>>) @@ ("2.676" :> <<669, 250>>) @@ ("1.0049" :> <<10049, 10000>>) @@
+  ("15" :> <<15, 1>>) @@ ("25" :> <<25, 1>>) @@ ("250" :> <<250, 1>>) @@ ("40" :> <<40, 1>>) @@
+  ("100" :> <<100, 1>>) @@ ("200" :> <<200, 1>>) @@ ("57" :> <<57, 1>>) @@ ("107" :> <<107, 1>>) @@ ("201" :> <<201, 1>>) @@
+  ("0.29" :> <<29, 100>>) @@ ("0.28" :> <<7, 25>>) @@ ("1.01" :> <<101, 100>>) @@ ("2.68" :> <<67, 25>>) @@
+  ("2.67" :> <<267, 100>>) @@ ("0.2" :> <<1, 5>>) @@ ("0.1" :> <<1, 10>>) @@ ("2.7" :> <<27, 10>>)
+AllLits == LitTable @@ TieLitTable
+IsLit(t) == t \in DOMAIN AllLits
 \* "HUGE": a 400-digit integer literal; "TINY": 0.000...01 with 320 zeros
 NumVal(t) == CASE t = "HUGE" -> Ix("p", "huge")
                [] t = "TINY" -> Ix("p", "tiny")
-               [] OTHER -> Q(LitTable[t][1], LitTable[t][2])
+               \* float(tok) is the double nearest to the numeral as written
+               [] OTHER -> SetNr(Q(AllLits[t][1], AllLits[t][2]), TRUE)
 IsNum(t) == IsLit(t) \/ t \in {"HUGE", "TINY"}
 End == "<end>"
 TokAt(ts, i) == IF i <= Len(ts) THEN ts[i] ELSE End
